@@ -168,6 +168,20 @@ struct Job {
     id: Option<TransactionID>,
     /// the source file does not exist: the Put request cannot start a transaction
     ghost: bool,
+    /// a user command for this transaction, issued at the sending daemon
+    cmd: JobCmd,
+}
+
+/// user commands addressed to a transaction through its daemon (`UserPrimitive`)
+#[derive(Clone, Debug, PartialEq)]
+enum JobCmd {
+    None,
+    /// Cancel as soon as the Put has been answered
+    CancelAtPut,
+    /// Suspend as soon as the Put has been answered, Resume `resume_ms` later
+    SuspendAtPut { resume_ms: u64 },
+    /// Report request at this time
+    ReportAt(u64),
 }
 
 #[derive(Default, Clone)]
@@ -235,6 +249,9 @@ async fn run_scenario(out: &mut dyn Write, viol: &mut u64, base: &Utf8PathBuf, s
     let kplan = sc.kplan.clone();
     let log: Arc<std::sync::Mutex<Vec<String>>> = Arc::new(std::sync::Mutex::new(vec![]));
     let log2 = log.clone();
+    // every PDU handed to the link: (ms, from entity, source entity of the transaction, sequence number, towards the receiver, condition of an EOF)
+    let sent: Arc<std::sync::Mutex<Vec<(u64, u16, u64, u64, bool, Option<Condition>)>>> = Arc::new(std::sync::Mutex::new(vec![]));
+    let sent2 = sent.clone();
     let inj2 = inject.clone();
     let delivered: Arc<std::sync::Mutex<BTreeMap<u16, Vec<String>>>> = Arc::new(std::sync::Mutex::new(BTreeMap::new()));
     let delivered2 = delivered.clone();
@@ -259,6 +276,7 @@ async fn run_scenario(out: &mut dyn Write, viol: &mut u64, base: &Utf8PathBuf, s
             };
             let fault = plan.get(&(from, idx)).cloned().or_else(|| kplan.get(&(from, kind_of(&pdu), kidx)).cloned());
             log2.lock().unwrap().push(format!("{}ms {}->{} #{} {} {:?}", now, from, to, idx, kind_of(&pdu), fault));
+            sent2.lock().unwrap().push((now as u64, from, pdu.header.source_entity_id.to_u64(), pdu.header.transaction_sequence_number.to_u64(), pdu.header.direction == Direction::ToReceiver, match &pdu.payload { PDUPayload::Directive(Operations::EoF(e)) => Some(e.condition), _ => None }));
             let Some(tx) = inj2.get(&to).cloned() else { continue };
             let (copies, delay) = match fault {
                 Some(Fault::Drop) => (0, 0),
@@ -302,6 +320,46 @@ async fn run_scenario(out: &mut dyn Write, viol: &mut u64, base: &Utf8PathBuf, s
         };
         nodes[&j.from].prim_tx.send(UserPrimitive::Put(req, tx)).await.unwrap();
         j.id = rx.await.ok();
+        if let Some(id) = j.id {
+            match &j.cmd {
+                JobCmd::CancelAtPut => {
+                    let _ = nodes[&j.from].prim_tx.send(UserPrimitive::Cancel(id)).await;
+                }
+                JobCmd::SuspendAtPut { .. } => {
+                    let _ = nodes[&j.from].prim_tx.send(UserPrimitive::Suspend(id)).await;
+                }
+                _ => {}
+            }
+        }
+    }
+    // ---- later user commands
+    let reports: Arc<std::sync::Mutex<Vec<(usize, Option<TransactionID>)>>> = Arc::new(std::sync::Mutex::new(vec![]));
+    let mut cmd_tasks = vec![];
+    for (k, j) in jobs.iter().enumerate() {
+        let Some(id) = j.id else { continue };
+        let tx = nodes[&j.from].prim_tx.clone();
+        match j.cmd.clone() {
+            JobCmd::SuspendAtPut { resume_ms } => cmd_tasks.push(tokio::task::spawn(async move {
+                tokio::time::sleep(Duration::from_millis(resume_ms)).await;
+                let _ = tx.send(UserPrimitive::Resume(id)).await;
+            })),
+            JobCmd::ReportAt(at) => {
+                let reports = reports.clone();
+                cmd_tasks.push(tokio::task::spawn(async move {
+                    tokio::time::sleep(Duration::from_millis(at)).await;
+                    let (rtx, rrx) = oneshot::channel();
+                    if tx.send(UserPrimitive::Report(id, rtx)).await.is_ok() {
+                        // no answer = the transaction has ended already
+                        if let Ok(Ok(r)) = tokio::time::timeout(Duration::from_millis(500), rrx).await {
+                            reports.lock().unwrap().push((k, Some(r.id)));
+                        } else {
+                            reports.lock().unwrap().push((k, None));
+                        }
+                    }
+                }))
+            }
+            _ => {}
+        }
     }
     if std::env::var("DAEMON_DEBUG").is_ok() {
         eprintln!("[{}] puts done", tag);
@@ -379,6 +437,9 @@ async fn run_scenario(out: &mut dyn Write, viol: &mut u64, base: &Utf8PathBuf, s
         }
     }
     stray_task.abort();
+    for t in cmd_tasks {
+        t.abort();
+    }
     if std::env::var("DAEMON_DEBUG").is_ok() { eprintln!("[{}] horizon reached", tag); }
     // ---- oracles
     let ctx = || format!("scenario {} || link log: {}", tag, log.lock().unwrap().iter().take(120).cloned().collect::<Vec<_>>().join(" | "));
@@ -418,6 +479,60 @@ async fn run_scenario(out: &mut dyn Write, viol: &mut u64, base: &Utf8PathBuf, s
             *viol += 1;
             oracle(out, "C04", "sender_success_only_after_receiver", &format!("sender of {} reported success, receiver did not || {}", idr, ctx()));
         }
+        // ---- user commands routed by the daemon
+        match &j.cmd {
+            JobCmd::CancelAtPut => {
+                *tally.entry("cmd_cancel").or_insert(0) += 1;
+                // C10 / C11: the Cancel reached this transaction: its sender reports the cancel condition,
+                // and the receiver - if the exchange got that far - reports it too, or had completed before
+                // (when the whole file and its EOF were out before the Cancel was seen and the receiver completed,
+                // the Finished PDU coming back makes the sender report that outcome: the cancel took effect too
+                // late - then the EOF(Cancel received) it transmitted is the evidence that the Cancel arrived)
+                let eof_cancel_sent = sent.lock().unwrap().iter().any(|x| x.1 == j.from && x.2 == id.0.to_u64() && x.3 == id.1.to_u64() && x.5 == Some(Condition::CancelReceived));
+                let sender_cancelled = eof_cancel_sent || s.send_finished.iter().any(|x| x.0 == Condition::CancelReceived);
+                let recv_ok = r.recv_finished.first().map_or(true, |x| x.0 == Condition::CancelReceived || (x.0 == Condition::NoError && x.1 == DeliveryCode::Complete));
+                if !sender_cancelled || !recv_ok {
+                    *viol += 1;
+                    oracle(out, "C10", "daemon_cancel", &format!("Cancel({}) was issued right after the Put but the sender finished {:?}, the receiver {:?} || {}", idr, s.send_finished, r.recv_finished, ctx()));
+                }
+                if !recv_success && got.is_some() {
+                    *viol += 1;
+                    oracle(out, "C10", "daemon_cancel_no_file", &format!("cancelled transaction {} left {} bytes under the destination name || {}", idr, got.as_ref().map_or(0, |g| g.len()), ctx()));
+                }
+                for e in [j.from, j.to] {
+                    // (the receiving entity may never have heard of the transaction)
+                    if e == j.from && !end_ms.contains_key(&format!("{}@{}", idr, e)) {
+                        *viol += 1;
+                        oracle(out, "C10", "daemon_cancel_ends", &format!("cancelled transaction {} has not ended at entity {} after {} s || {}", idr, e, sc.horizon_s, ctx()));
+                    }
+                }
+                continue;
+            }
+            JobCmd::SuspendAtPut { resume_ms } => {
+                *tally.entry("cmd_suspend").or_insert(0) += 1;
+                // C19: while suspended the sender transmits nothing for this transaction
+                let during: Vec<_> = sent.lock().unwrap().iter().filter(|x| x.1 == j.from && x.2 == id.0.to_u64() && x.3 == id.1.to_u64() && x.4 && x.0 >= 100 && x.0 + 20 < *resume_ms).cloned().collect();
+                if !during.is_empty() {
+                    *viol += 1;
+                    oracle(out, "C19", "daemon_suspended_silent", &format!("transaction {} was suspended at its start and resumed after {} ms but transmitted at {:?} ms || {}", idr, resume_ms, during.iter().map(|x| x.0).collect::<Vec<_>>(), ctx()));
+                }
+                // (that it completes after the Resume is part of others_unaffected below)
+            }
+            JobCmd::ReportAt(_) => {
+                for (k2, got_id) in reports.lock().unwrap().iter() {
+                    if jobs.get(*k2).map(|x| x.src.clone()) == Some(j.src.clone()) {
+                        *tally.entry("cmd_report").or_insert(0) += 1;
+                        if let Some(g) = got_id {
+                            if g != id {
+                                *viol += 1;
+                                oracle(out, "C11", "report_own_id", &format!("Report({}) was answered for transaction {} || {}", idr, id_repr(g), ctx()));
+                            }
+                        }
+                    }
+                }
+            }
+            JobCmd::None => {}
+        }
         if sc.isolation {
             // C11: nothing was lost on the link, so whatever else happened at the daemons (other
             // transactions, strays, replays) this transaction succeeds, and reports it exactly once
@@ -425,7 +540,8 @@ async fn run_scenario(out: &mut dyn Write, viol: &mut u64, base: &Utf8PathBuf, s
             // end of its transaction legitimately starts a fresh receive transaction that ends by its
             // own limits, so later receiver outcomes under the same id are not held against it)
             let recv_once = r.recv_finished.first().map_or(false, |x| x.0 == Condition::NoError && x.1 == DeliveryCode::Complete);
-            let send_once = s.send_finished.len() == 1 && send_success;
+            // (a Finished PDU the receiver had to repeat - e.g. while the sender was suspended - is reported again)
+            let send_once = send_success && s.send_finished.iter().all(|x| x.0 == Condition::NoError && x.1 == DeliveryCode::Complete);
             let send_expected = j.mode == TransmissionMode::Acknowledged || sc.cfg.closure;
             if !recv_once || got.as_deref() != Some(&j.file[..]) || (send_expected && !send_once) || (!send_expected && s.send_finished.iter().any(|x| x.0 != Condition::NoError)) {
                 *viol += 1;
@@ -600,7 +716,7 @@ pub fn run(opts: &Opts, out: &mut dyn Write) {
         let sc = Scenario {
             horizon_s: (cfg.max as u64 + 2) * (cfg.ti + cfg.ta + cfg.tn) as u64 * 3 + 20,
             cfg,
-            jobs: vec![Job { from: 1, to: 2, mode: TransmissionMode::Acknowledged, file, src: "src0.bin".into(), dst: "dst0.bin".into(), id: None, ghost: false }],
+            jobs: vec![Job { from: 1, to: 2, mode: TransmissionMode::Acknowledged, file, src: "src0.bin".into(), dst: "dst0.bin".into(), id: None, ghost: false, cmd: JobCmd::None }],
             plan,
             kplan,
             strays: vec![],
@@ -637,7 +753,23 @@ pub fn run(opts: &Opts, out: &mut dyn Write) {
                 id: None,
                 // one Put in six names a source file that does not exist
                 ghost: rng.chance(1, 6),
+                cmd: JobCmd::None,
             });
+        }
+        // user commands through the daemons: in every third scenario one transfer is cancelled or suspended
+        // right after its Put (a file of six segments in acknowledged mode, so that it cannot be over before
+        // the command is seen), and in every second one some transfer is asked for a report
+        if k % 3 == 0 {
+            if let Some(c) = jobs.iter().position(|j| !j.ghost) {
+                jobs[c].mode = TransmissionMode::Acknowledged;
+                jobs[c].file = lin(6 * segu, 5, 31 + k as u64);
+                jobs[c].cmd = if rng.chance(1, 2) { JobCmd::CancelAtPut } else { JobCmd::SuspendAtPut { resume_ms: 1500 } };
+            }
+        }
+        if k % 2 == 0 {
+            if let Some(c) = jobs.iter().rposition(|j| !j.ghost && j.cmd == JobCmd::None) {
+                jobs[c].cmd = JobCmd::ReportAt(rng.below(300));
+            }
         }
         let mut strays = vec![];
         let fin = |c: Condition, d: DeliveryCode| PDUPayload::Directive(Operations::Finished(Finished { condition: c, delivery_code: d, file_status: FileStatusCode::Retained, filestore_response: vec![], fault_location: None }));
@@ -711,8 +843,8 @@ pub fn run(opts: &Opts, out: &mut dyn Write) {
     for k in 0..n_burst {
         let cfg = Cfg { seg: 64, max: 3, ti: 20, ta: 20, tn: 20, crc: rng.chance(1, 2), closure: false, nak: NakProcedure::Deferred(Duration::ZERO) };
         let jobs = vec![
-            Job { from: 1, to: 2, mode: TransmissionMode::Unacknowledged, file: lin(150 * 64 + 5 + 64 * rng.below(40) as usize, 7, 3), src: "long.bin".into(), dst: "long.out".into(), id: None, ghost: false },
-            Job { from: 1, to: 2, mode: if rng.chance(1, 2) { TransmissionMode::Acknowledged } else { TransmissionMode::Unacknowledged }, file: lin(700, 11, 5), src: "short.bin".into(), dst: "short.out".into(), id: None, ghost: false },
+            Job { from: 1, to: 2, mode: TransmissionMode::Unacknowledged, file: lin(150 * 64 + 5 + 64 * rng.below(40) as usize, 7, 3), src: "long.bin".into(), dst: "long.out".into(), id: None, ghost: false, cmd: JobCmd::None },
+            Job { from: 1, to: 2, mode: if rng.chance(1, 2) { TransmissionMode::Acknowledged } else { TransmissionMode::Unacknowledged }, file: lin(700, 11, 5), src: "short.bin".into(), dst: "short.out".into(), id: None, ghost: false, cmd: JobCmd::None },
         ];
         let tag = format!("c11-burst-{}-seed{}", k, opts.seed);
         let sc = Scenario { horizon_s: 15, cfg, jobs, plan: BTreeMap::new(), kplan: BTreeMap::new(), strays: vec![], isolation: true, slow_ms: 400, early_exit: true, bounded: true };
